@@ -26,6 +26,9 @@ pub trait Handler {
     /// (cancellation, step budget) or block (cooperative scheduling).
     fn on_event(&self) {}
     fn probe(&self, _site: Site) {}
+    /// Called once per edge followed while `connect_edges` assembles the result rings. Like `on_event`
+    /// it may panic or block.
+    fn on_connect_step(&self) {}
     /// Called when `subdivide` has left its loop, with the number of events still queued.
     fn after_sweep(&self, _remaining: usize) {}
     /// When true, a bounding box is replaced by the whole plane as soon as it is accumulated, so that
@@ -59,6 +62,12 @@ fn current() -> Option<Rc<dyn Handler>> {
 pub fn on_event() {
     if let Some(h) = current() {
         h.on_event()
+    }
+}
+
+pub fn on_connect_step() {
+    if let Some(h) = current() {
+        h.on_connect_step()
     }
 }
 
